@@ -246,6 +246,28 @@ def ob_rebin(shape, newshape, sample):
     return Obligation('rebin %s->%s sample=%d' % (shape, newshape, sample), fn, bounds='shape %s' % (shape,))
 
 
+def adversarial_expansions(limit):
+    """expansion factors for which the obvious float index floor((d0/d)*i) differs from the integer index
+    (i*d0)//d for some i: found by a QF_BVFP query over d0 <= 8, factor <= 64 on every run (witnesses of
+    an IEEE rounding effect that the exact-real model of the array values cannot see by itself)."""
+    S, RM = z3.Float64(), z3.RNE()
+    d0, k, i = z3.BitVec('d0', 16), z3.BitVec('k', 16), z3.BitVec('i', 16)
+    s = z3.Solver()
+    s.set('timeout', 120000)
+    dd = d0 * k
+    s.add(z3.ULE(1, d0), z3.ULE(d0, 8), z3.ULE(2, k), z3.ULE(k, 64), z3.ULT(i, dd))
+    f = z3.fpDiv(RM, z3.fpUnsignedToFP(RM, d0, S), z3.fpUnsignedToFP(RM, dd, S))
+    p = z3.fpMul(RM, f, z3.fpUnsignedToFP(RM, i, S))
+    s.add(z3.fpToUBV(z3.RTN(), p, z3.BitVecSort(16)) != z3.UDiv(i * d0, dd))
+    out = []
+    while len(out) < limit and s.check() == z3.sat:
+        m = s.model()
+        a, b = m[d0].as_long(), m[k].as_long()
+        out.append((a, a * b))
+        s.add(z3.Or(d0 != a, k != b))
+    return out
+
+
 def ob_rebin_int(n, d, sample):
     def fn(ctx):
         from pydl import rebin
@@ -354,6 +376,11 @@ def obligations(tier, seed):
         shape = tuple(c[0] for c in combo)
         new = tuple(c[1] for c in combo)
         obs.append(ob_rebin(shape, new, False))
+    # expansion factors chosen by the solver: those where a float-computed source index would be off by one
+    for n, d in adversarial_expansions(1 if tier == 'quick' else 4):
+        obs.append(ob_rebin((n,), (d,), True))
+        if tier != 'quick':
+            obs.append(ob_rebin((n,), (d,), False))
     obs.append(ob_rebin_errors())
     return obs
 
